@@ -48,6 +48,7 @@ if '--no-check' not in sys.argv:
     r = subprocess.run(['/verif/tools/mutx.py', prop, '--patch', f'{dst}/patch.diff'], capture_output=True, text=True)
     first = r.stdout.splitlines()[0] if r.stdout else 'no output'
     meta['quick_check_verdict'] = first.split(' ')[0]
+    meta['first_verdict'] = meta['quick_check_verdict']
     meta['quick_check_output_tail'] = r.stdout.splitlines()[-4:]
     print(first)
     for l in r.stdout.splitlines()[-4:]: print('   ', l[:300])
